@@ -413,6 +413,10 @@ class KexGroupExchange(KexDH):
         except (struct.error, ValueError):
             raise KexDHException("Error while parsing modulus and generator during GEX init: %s" % str(traceback.format_exc())) from None
 
+        # A modulus far beyond anything we ask for is refused: the cost of the exponentiation below grows with the cube of a size that the peer chooses.
+        if p.bit_length() > max(maxbits, 8192):
+            raise KexDHException("Modulus received during GEX init is too large: %u bits" % p.bit_length())
+
         # Now that we got the generator and modulus, perform the DH exchange
         # like usual.
         try:
